@@ -90,8 +90,14 @@ def harness_c08(tier, seed):
         insts.append(Instance("asym4", asym, ["a", "b", "c", "d"], 2, 1, 3, 1, 3, 1, 6))
     except Exception as ex:
         viol.append(("asymmetric-instance/raises", {"matrix": asym.tolist()}, repr(ex)))
-    for _ in range(nplans):
-        inst = rng.choice(insts)
+    # tournaments that are not double round-robins (all bundled instances have two rounds): one and three rounds
+    for rounds_ in (1, 3):
+        try:
+            insts.append(Instance(f"asym4r{rounds_}", asym, ["a", "b", "c", "d"], rounds_, 1, 3, 1, 3, 1, 3))
+        except Exception as ex:
+            viol.append(("generated-instance/raises", {"rounds": rounds_}, repr(ex)))
+    for k_plan in range(nplans):
+        inst = insts[-1 - (k_plan % 2)] if k_plan < 12 else rng.choice(insts)
         n = inst.n_cities
         days = (n - 1) * inst.rounds
         obj = GamePlanLength(inst)
@@ -104,6 +110,13 @@ def harness_c08(tier, seed):
             else:
                 for t in range(n):
                     y[d, t] = rng.randint(-n, n)
+        if k_plan % 6 == 0:
+            y.fill(0)                 # every team has every day off: the largest value a plan can have
+        elif k_plan % 6 == 3:
+            for d in range(days):     # mostly days off
+                for t in range(n):
+                    if rng.random() < 0.8:
+                        y[d, t] = 0
         if int(obj.bye_penalty) != 2 * int(np.array(inst).max()) + 1:
             viol.append(("bye-penalty", {"instance": inst.name}, f"bye_penalty={obj.bye_penalty}, 2*max+1={2 * int(np.array(inst).max()) + 1}"))
         val = int(obj.evaluate(y))
@@ -130,7 +143,7 @@ def harness_c08(tier, seed):
     return {"name": "ttp_plan_length", "evaluations": evals, "distinct_nontrivial": len(distinct),
             "rule": "optimum clause: ALL 12^6 consistent 4-team plans per instance (7 instances), minimum over the error-free "
                     "ones vs the published optimum (exhaustive); walk model / bounds on random plans (consistent and arbitrary "
-                    "entries in -n..n) of 5 bundled instances; bye clause on every (day, team) position of each such plan",
+                    "entries in -n..n, all-days-off and mostly-days-off plans) of 5 bundled instances and generated asymmetric ones with 1, 2 and 3 rounds; bye clause on every (day, team) position of each such plan",
             "samples": samples, "violations": viol, "exhaustive": True}
 
 
